@@ -88,6 +88,7 @@ THEOREMS_TREE = [
     "OllamaVerif.C17.client_one_final",
     "OllamaVerif.C17.client_every_reply",
     "OllamaVerif.C17.F17a_split_loses_call",
+    "OllamaVerif.C17.F17f_repaired_finish_reason",
     "OllamaVerif.Tie.C17.tree_variant",
     "OllamaVerif.Tie.C17.client_limit_documented",
     "OllamaVerif.Tie.C17.reason_table_complete",
@@ -111,7 +112,8 @@ THEOREMS = THEOREMS_TREE + THEOREMS_HISTORICAL_OR_PATCH
 # Which behaviour the oracle models (bit set = that proposed fix is in the tree under test):
 #   1 = proposed_fixes/C17-F17ab.patch (streaming tool path + call numbering), 2 = C17-F17c.patch (in /repo),
 #   4 = C17-F17b.patch alone (non-stream call numbering), 8 = C17-F17d.patch (run without done -> error),
-#   16 = C17-F17e.patch (api.Client returns the scanner's error).
+#   16 = C17-F17e.patch (api.Client returns the scanner's error), 32 = C17-F17f.patch (finish_reason of a final message
+#   that carries the tool call; NOT in /repo).
 # One edit when the lead applies a fix (or VERIF_C17_VARIANT for a scratch worktree).
 VARIANT = 30  # fixed in /repo: F17c (499276761, bit 2), F17b (bit 4), F17d (bit 8), F17e (2a881f3aa, bit 16)
 OVERLAY = {"server/zz_verif_c17_test.go": "server/zz_verif_c17_test.go"}
@@ -200,11 +202,13 @@ def regenerate(ctx):
                          f"def treeVariant : OllamaVerif.Stream.Variant := ⟨{lb('toolsStream')}, {lb('toolsIndex')}, {lb('oaErr')}, {lb('incomplete')}⟩\n"
                          "/-- api.Client returns the scanner's error for a line it cannot hold (F17e) -/\n"
                          f"def treeClientFixed : Bool := {lb('clientFixed')}\n"
+                         "/-- a tool call delivered by the done message ends the OpenAI stream with tool_calls (F17f) -/\n"
+                         f"def treeFinishFixed : Bool := {lb('oaFinish')}\n"
                          "end OllamaVerif.Generated.C17\n")
     if probe:
         bits = (1 if probe.get("toolsStream") else 0) | (2 if probe.get("oaErr") else 0) | \
                (4 if probe.get("toolsIndex") and not probe.get("toolsStream") else 0) | (8 if probe.get("incomplete") else 0) | \
-               (16 if probe.get("clientFixed") else 0)
+               (16 if probe.get("clientFixed") else 0) | (32 if probe.get("oaFinish") else 0)
         ctx.coverage["variant_probed_bits"] = bits
         ctx.coverage["variant_expected_bits"] = int(os.environ.get("VERIF_C17_VARIANT", VARIANT))
 
